@@ -7,6 +7,24 @@ pid, tag = sys.argv[1], sys.argv[2]
 emph = sys.argv[3] if len(sys.argv) > 3 else 'r4'
 prop = [json.loads(l) for l in open('/verif/properties.jsonl') if json.loads(l)['id'] == pid][0]
 EMPH = {
+ 'r6': """Kinds of change I am most interested in this time (pick two DIFFERENT kinds, in two DIFFERENT functions, ideally in two different files):
+ * an ADDED or NARROWED thing rather than a deleted one: an extra condition and-ed into an existing `if` (so that an action silently stops happening in
+   one situation), an extra early `return` / `continue` for a case that looked redundant, an extra state write or an extra removal / event / message
+   (something done twice), a `match` arm made more specific so that a case falls into the default arm;
+ * a wrong-but-type-compatible LOCAL variable, loop variable, tuple element or closure parameter (not a struct field): the outer instead of the inner
+   binding, the value before instead of after an update, the index instead of the count, `a.min(b)` for `a.max(b)`, `&&` for `||`, `.0` for `.1`;
+ * idempotency and duplicates: a message, block, transaction, update or event delivered twice or replayed after reconnect / restart / reorg is applied
+   twice, or its second delivery is rejected where it must be accepted (or the other way round);
+ * a data-structure invariant that other code relies on: sorted order, uniqueness, an index map kept in step with its vector, a counter kept in step
+   with a set, a cache not invalidated when its source changes;
+ * a trait default method, generic helper, macro or conversion used by several callers, changed so that only ONE caller's use breaks;
+ * concurrency / asynchrony: a lock released and re-taken between a check and the act it guards, two locks taken in the other order, an atomic flag
+   set before instead of after the work it announces, an async completion handled out of order.
+Avoid the best-known central guard of the best-known function, and avoid simply deleting a check or a removal: sibling routines, second arms,
+restart / reorg / reconnect paths and helpers are better.
+When you run a crate's whole lib suite use `timeout 1200 cargo test --offline -p <crate> --lib -- --test-threads 8`; one threaded test of the
+repository (chanmon_update_fail_tests::test_single_channel_multiple_mpp) occasionally dead-locks on a loaded machine whatever the patch - if a run
+hangs there, kill it and run it again rather than waiting.""",
  'r5': """Kinds of change I am most interested in this time (pick two DIFFERENT kinds, in two DIFFERENT functions, ideally in two different files):
  * a defect in code that is NOT named in the anchors above but on which the property depends: a helper in another module, a conversion
    (From / TryFrom / Into), a Default, an Ord / PartialEq / Hash impl, an iterator adaptor chain, a small accessor, a macro-generated arm;
